@@ -1569,7 +1569,13 @@ func (tx *Transaction) AuditLog() *auditlog.Log {
 				content, err := io.ReadAll(reader)
 				if err == nil {
 					al.Transaction_.Request_.Body_ = string(content)
+				} else {
+					// e.g. the spill-over file cannot be read: the record goes out without part C,
+					// which must not happen silently
+					tx.debugLogger.Error().Err(err).Msg("Failed to read the request body for the audit log")
 				}
+			} else {
+				tx.debugLogger.Error().Err(err).Msg("Failed to get the request body reader for the audit log")
 			}
 
 			// Note: Part I is a replacement for Part C that logs a fake
